@@ -48,6 +48,7 @@ fn main() {
     "alu-sweep" => cmd_alu::run(&args[2..]),
     "decode" => cmd_decode::run(&args[2..]),
     "blocks" => cmd_instr::blocks(&args[2..]),
+    "cache-pressure" => cmd_machine::cache_pressure(&args[2..]),
     "version" => println!("gbv jit={}", cfg!(feature = "jit")),
     _ => { eprintln!("usage: gbv <command> ..."); std::process::exit(2); }
   }
